@@ -95,6 +95,7 @@ func c14UserPanic(res *Result) {
 }
 
 func suiteC14(cfg Config, res *Result) {
+	defer c14StaticLooking(res)
 	defer c14Shared(res)
 	defer c14UserPanic(res)
 	res.Rule = "grammar-generated programs in which the k-th output position is a fault point {{ 1/zz }} (zz = 0: execution error there; zz = 1: fault-free), for every k, plus the same programs without fault; each executed through Execute, ExecuteBytes, ExecuteWriter (to a plain io.Writer, to one that also has WriteString, to a *bytes.Buffer) and ExecuteWriterUnbuffered with a recording writer, and through ExecuteWriter / ExecuteWriterUnbuffered with a writer that starts failing after 0..3 calls (programs include sub-templates), and with contexts the engine rejects (a key that is not an identifier, a key that is an exported macro's name); oracle: the four variants produce the same bytes and fail in the same cases; on failure ExecuteWriter wrote nothing and the unbuffered variant a prefix of the fault-free output; a failing caller's writer makes the call return an error — never a panic — having written a prefix; non-trivial = program with a fault point behind >= 1 output; distinct by (program, fault position)"
